@@ -10,10 +10,14 @@ import SigpyVerif.Lemmas.C07
   and the theorem no longer checks.  The kernel `K : Rat → Rat → Rat` is abstract (the statements hold
   for the spline and for Kaiser–Bessel alike); coordinates, widths and params are rationals.
 
-  What is NOT carried by a theorem (validated by the correspondence check instead):
-  the Python wrappers `interpolate` / `gridding` (batch flattening, scalar/per-axis broadcasting,
-  reshape — `Model/C07.lean`), float rounding of the weights, and the numerical accuracy of the
-  polynomial approximation of I0 in `_kaiser_bessel_kernel` (search oracle vs scipy.special.i0).
+  The Python wrappers `interpolate` / `gridding` (batch flattening, scalar/per-axis broadcasting, dispatch,
+  reshape) are translator-generated too (`Gen.InterpWrappers`) and the theorems about them — and about the
+  executable array application `applyUpd` vs. the function-level semantics `runUpd` used below — are in
+  `Props/C07Wrap.lean` (`wrapper_spec`, `gridding_wrapper_spec`, `applyUpd_eq_runUpd`, `*_value_spec`).
+
+  What is NOT carried by a theorem (validated by the correspondence check instead): float rounding of the
+  weights, the numerical accuracy of the polynomial approximation of I0 in `_kaiser_bessel_kernel` (search
+  oracle vs scipy.special.i0), numba's compilation of the loop nests, numpy's reshape / zeros.
 -/
 namespace SigpyVerif.C07
 open SigpyVerif
